@@ -43,6 +43,7 @@
 //! processed event, `End` with the summary check) for `Trace_Backtest.tla`; `--results` one line
 //! per run with the schedule-independent facts (fills, positions, balances, realised PnL, summary
 //! digest) that python compares between a concurrent run and the same parameters run alone.
+#![recursion_limit = "256"]
 use barter::{
     backtest::{
         BacktestArgsConstant, BacktestArgsDynamic,
@@ -729,7 +730,8 @@ fn first_item_time(events: &[Item]) -> DateTime<Utc> {
 }
 
 /// panic of the whole call / wall-clock bound exceeded / one result per run
-type CallOutcome = Result<Result<Vec<Result<BacktestSummary<Daily>, String>>, ()>, String>;
+/// (the second component: `num_backtests` and the number of summaries of a `MultiBacktestSummary`)
+type CallOutcome = Result<Result<(Vec<Result<BacktestSummary<Daily>, String>>, Option<(usize, usize)>), ()>, String>;
 
 /// THE call under test: `run_backtests` over all runs (one batch result: an error is every run's
 /// result) or, `each`, one `backtest()` per run joined concurrently (one result per run).
@@ -750,15 +752,23 @@ where
         rt.block_on(async {
             let run = async {
                 if each {
-                    futures::future::join_all(dynamics.into_iter().map(|d| backtest(Arc::clone(&args), d)))
+                    let v = futures::future::join_all(dynamics.into_iter().map(|d| backtest(Arc::clone(&args), d)))
                         .await
                         .into_iter()
                         .map(|r| r.map_err(|e| format!("{e:?}")))
-                        .collect::<Vec<_>>()
+                        .collect::<Vec<_>>();
+                    (v, None)
                 } else {
                     match run_backtests(args, dynamics).await {
-                        Ok(m) => m.summaries.into_iter().map(Ok).collect(),
-                        Err(e) => (0..k).map(|_| Err(format!("{e:?}"))).collect(),
+                        // the batch result is a SEQUENCE: position r holds the summary of run r
+                        Ok(m) => {
+                            let shape = Some((m.num_backtests, m.summaries.len()));
+                            let got = m.summaries.len();
+                            let mut it = m.summaries.into_iter();
+                            let v = (0..k).map(|_| it.next().ok_or_else(|| format!("missing: the batch result holds {got} summaries for {k} runs"))).collect();
+                            (v, shape)
+                        }
+                        Err(e) => ((0..k).map(|_| Err(format!("{e:?}"))).collect(), None),
                     }
                 }
             };
@@ -868,6 +878,19 @@ fn random_acts(rng: &mut impl Rng, points: &[u32], max_orders: usize) -> Value {
     Value::from(acts)
 }
 
+/// Ids of the runs of one batch: ids are labels, not keys - all distinct / all the empty id (the
+/// repository example's template) / equal in pairs / two equal ids and the empty id among distinct ones.
+fn batch_ids(k: usize, pattern: usize) -> Vec<String> {
+    (0..k)
+        .map(|r| match pattern % 4 {
+            0 => format!("{r}"),
+            1 => String::new(),
+            2 => format!("sweep-{}", r / 2),
+            _ => if r == 0 || r == k - 1 { "template".to_string() } else if r == 1 { String::new() } else { format!("{r}") },
+        })
+        .collect()
+}
+
 /// Late / re-published ticks: `count` items (never the first, a Reconnecting item, a forbidden
 /// id, or the successor of another late item) that are 30 s ... a day older than their predecessor.
 fn random_late(rng: &mut impl Rng, n: usize, recs: &[u32], forbidden: &[u32], count: usize) -> Vec<(u32, i64)> {
@@ -949,7 +972,7 @@ fn plan(seed: u64, tier: &str) -> Vec<Value> {
             // rotate so that argument order differs between scenarios
             let runs: Vec<Value> = (0..*k).map(|r| { let vi = (r + gi) % kmax; json!({"variant": vi, "acts": variants[vi]}) }).collect();
             out.push(json!({"name": format!("g{name}"), "mode": "gated", "workers": w, "n": n, "data_seed": data_seed, "recs": recs,
-                            "points": points, "latency_ms": latency, "alone": false, "late": late, "runs": runs}));
+                            "points": points, "latency_ms": latency, "alone": false, "late": late, "ids": batch_ids(*k, gi + dsi + 1), "runs": runs}));
         }
     }
     // ---- in-memory (the repository's MarketDataInMemory): consumption clauses only ------------
@@ -1004,7 +1027,7 @@ fn plan(seed: u64, tier: &str) -> Vec<Value> {
                 })
                 .collect();
             out.push(json!({"name": format!("m{name}"), "mode": "inmem", "workers": w, "n": n, "data_seed": data_seed, "recs": recs,
-                            "points": [], "latency_ms": gi % 2, "alone": *k == 1, "late": late, "runs": runs}));
+                            "points": [], "latency_ms": gi % 2, "alone": *k == 1, "late": late, "ids": batch_ids(*k, gi + dsi), "runs": runs}));
         }
     }
     // ---- paused clock: the data source takes (virtual) milliseconds to days ---------------------
@@ -1035,7 +1058,7 @@ fn plan(seed: u64, tier: &str) -> Vec<Value> {
             })
             .collect();
         out.push(json!({"name": format!("p{name}"), "mode": "paused", "workers": 1, "n": n, "data_seed": data_seed, "recs": recs,
-                        "points": [], "latency_ms": dsi % 3, "gaps": profile, "alone": *k == 1, "late": late, "runs": runs}));
+                        "points": [], "latency_ms": dsi % 3, "gaps": profile, "alone": *k == 1, "late": late, "ids": batch_ids(*k, dsi + 1), "runs": runs}));
     }
     // ---- a market data source that FAILS part way (its stream panics after k of n items) --------
     // (n, gaps, api, fails per run)
@@ -1113,6 +1136,7 @@ fn run_scenario(scn: &Value, trace: &mut Out, results: &mut Out, totals: &mut Va
     // fails[r] = k: the data source of run r fails after k items (paused family only)
     let fails: Vec<Option<usize>> = (0..k).map(|r| scn["fails"].get(r).and_then(|x| x.as_u64()).map(|x| x as usize)).collect();
     let each = scn["api"].as_str() == Some("backtest");
+    let ids: Vec<String> = (0..k).map(|r| scn["ids"].get(r).and_then(|x| x.as_str()).map(|x| x.to_string()).unwrap_or_else(|| format!("{r}"))).collect();
     if fails.iter().any(|f| f.is_some()) && !paused {
         usage("a failing data source is available in the paused family only");
     }
@@ -1138,7 +1162,9 @@ fn run_scenario(scn: &Value, trace: &mut Out, results: &mut Out, totals: &mut Va
         }
         let sink = Arc::new(Mutex::new(Sink::default()));
         dynamics.push(BacktestArgsDynamic {
-            id: SmolStr::new(format!("{r}")),
+            // ids are labels, not keys: a batch may carry equal ids (the repository's example
+            // clones one template id) and the empty id
+            id: SmolStr::new(ids[r].as_str()),
             risk_free_return: Decimal::new(5, 2),
             strategy: ActStrategy { id: StrategyId::new("c20"), run: r, acts: Arc::new(acts.clone()), sink: sink.clone(), shared: shared.clone() },
             risk: DefaultRiskManager::<State>::default(),
@@ -1193,10 +1219,10 @@ fn run_scenario(scn: &Value, trace: &mut Out, results: &mut Out, totals: &mut Va
         tool_error(&format!("scenario {name}: a data-source gate was not released within {GATE_TIMEOUT:?} (wall-clock bound; not a verdict)"));
     }
     // one result per run
-    let per_run: Vec<Result<BacktestSummary<Daily>, String>> = match outcome {
-        Err(panic) => (0..k).map(|_| Err(format!("panic: {panic}"))).collect(),
+    let (per_run, shape): (Vec<Result<BacktestSummary<Daily>, String>>, Option<(usize, usize)>) = match outcome {
+        Err(panic) => ((0..k).map(|_| Err(format!("panic: {panic}"))).collect(), None),
         Ok(Err(())) => tool_error(&format!("scenario {name}: run_backtests did not return within {SCENARIO_TIMEOUT:?} (wall-clock bound; not a verdict)")),
-        Ok(Ok(v)) => v.into_iter().map(|r| r.map_err(|e| format!("error: {e}"))).collect(),
+        Ok(Ok((v, shape))) => (v.into_iter().map(|r| r.map_err(|e| if e.starts_with("missing:") { e } else { format!("error: {e}") })).collect(), shape),
     };
     let injected = fails.iter().any(|f| f.is_some());
 
@@ -1241,11 +1267,12 @@ fn run_scenario(scn: &Value, trace: &mut Out, results: &mut Out, totals: &mut Va
         }
         // the summary of this run (summaries are returned in argument order; the id says which)
         let summary = per_run.get(r).and_then(|x| x.as_ref().ok());
-        let id_ok = summary.map(|s| s.id.as_str() == format!("{r}")).unwrap_or(false);
+        let id_ok = summary.map(|s| s.id.as_str() == ids[r]).unwrap_or(false);
         let sum_json = summary.map(project_summary).unwrap_or(json!("none"));
         // (a run whose strategy was never called has shown no engine state to compare with)
         let sumok = status == "ok" && id_ok && (sk.calls == 0 || sum_json == sk.digest);
-        if status == "ok" {
+        if status == "ok" || status.starts_with("missing:") {
+            // (a batch result without this run's summary: the backtest ended, its position is empty)
             let mut end = line("End");
             let mut sent: Vec<i64> = sk.lines.last().map(|l| l["sent"].as_array().unwrap().iter().map(|x| x.as_i64().unwrap()).collect()).unwrap_or_default();
             sent.sort();
@@ -1290,6 +1317,8 @@ fn run_scenario(scn: &Value, trace: &mut Out, results: &mut Out, totals: &mut Va
             "fired": sk.fired, "facts": sk.facts, "digest": sk.digest, "summary": sum_json, "summary_id_ok": id_ok, "sumok": sumok,
             "order_states": sk.order_states, "anomalies": sk.anomalies,
             "extra_streams": extra_streams.load(Ordering::SeqCst), "wall_s": wall,
+            "id": ids[r], "summary_id": summary.map(|s| s.id.to_string()),
+            "batch_num_backtests": shape.map(|x| x.0), "batch_summaries": shape.map(|x| x.1),
             "source_fails_after": fails[r], "scenario_has_failing_source": injected, "api": if each { "backtest" } else { "run_backtests" },
             "late_items": late.len(),
         }));
